@@ -240,7 +240,7 @@ package ecscache
 //@   requires validRRs(resp.Answer) && validRRs(resp.Ns) && validRRs(resp.Extra) && optsOK(resp.Answer) && optsOK(resp.Ns) && optsOK(resp.Extra) && optsApart()
 //@   requires forall i int :: 0 <= i && i < len(resp.Extra) && isOPT(resp.Extra[i]) ==> subnetOptsNonNil(optAt(resp, i))
 //@   requires (arr(resp.Answer) != arr(resp.Ns) || arr(resp.Answer) == 0) && (arr(resp.Answer) != arr(resp.Extra) || arr(resp.Answer) == 0) && (arr(resp.Ns) != arr(resp.Extra) || arr(resp.Ns) == 0)
-//@   modifies heap, ipBytes, hst, lastLowest, csets, csetKey, csetVal, writes, wroteReq, wroteResp, wroteId, wroteRcode, wroteNQ, wroteQ, truncSize
+//@   modifies heap, ipBytes, hst, lastLowest, csets, csetKey, csetVal, writes, wroteReq, wroteResp, wroteId, wroteRcode, wroteNQ, wroteQ, truncSize, ecsBad, ecsDataErrs
 //@   atcall set assert unscoped-answers-are-stored-without-subnet: !respIsECS ==> cr.subnet == zeroPrefix(ecsFam)
 //@   atcall set assert scope-zero-is-never-subnet-specific: scope == 0 ==> !respIsECS
 //@   atcall ResponseWriter.WriteMsg assert subnet-echoed-iff-asked: (ri.ECS != nil ==> ecsSome(resp) &&
@@ -256,7 +256,7 @@ package ecscache
 //@   requires mh.mw.logger != nil && mh.mw.cloner != nil && mh.mw.cacheReqPool != nil && ref(mh.mw.cache) != 0 && ref(mh.mw.ecsCache) != 0 && ref(mh.mw.geoIP) != 0
 //@   requires itemsOK() && optsApart()
 //@   modifies heap, ipBytes, hst, lastLowest, csets, csetKey, csetVal, cgetCache, cgetKey, geoSubnet, geoCountry, geoASN, geoSubdiv, geoFam,
-//@            writes, wroteReq, wroteResp, wroteId, wroteRcode, wroteNQ, wroteQ, truncSize, served, servedReq, servedRW, servedErr, stamped
+//@            writes, wroteReq, wroteResp, wroteId, wroteRcode, wroteNQ, wroteQ, truncSize, served, servedReq, servedRW, servedErr, stamped, ecsBad, ecsDataErrs
 //@   atcall writeUpstreamResponse assume next-stage-leaves-the-original-request-alone: len(req.Question) >= 1
 //@   atcall writeUpstreamResponse assume upstream-response-is-well-formed: validRRs(resp.Answer) && validRRs(resp.Ns) && validRRs(resp.Extra) &&
 //@             optsOK(resp.Answer) && optsOK(resp.Ns) && optsOK(resp.Extra) && optsApart() &&
